@@ -72,7 +72,9 @@ def run (line : String) : String :=
       let model := match r with
         | .ok () => s!"ok {encVal (reify st.heap reifyDepth (Vm.lastPopped st))} g0={g0} sp={st.sp}"
         | .error (.err _ l) => s!"rterr {l} g0={g0}"
-        | .error (.panic _) => "PANIC"
+        -- the model's guard for a repetition beyond 16 MiB ("more memory than the machine has"): the real VM may panic,
+        -- be refused by the allocator, or succeed — nothing to compare
+        | .error (.panic msg) => if msg == "capacity overflow" then "MODEL-SKIP mem-excluded" else "PANIC"
         | .error (.unmodelled _) => "MODEL-SKIP"
         | .error .fuel => "MODEL-SKIP"
         | .error .ok => "MODEL-SKIP"
